@@ -95,7 +95,7 @@ func genMainFacts() {
 	mainFn := findFunc(f, "", "main")
 	targetFalse := false
 	preloadBeforeTarget := false
-	var prePos, tgtPos token.Pos
+	var prePos, tgtPos, cleanPos token.Pos
 	ast.Inspect(mainFn.Body, func(n ast.Node) bool {
 		if ce, ok := n.(*ast.CallExpr); ok {
 			if id, ok := ce.Fun.(*ast.Ident); ok {
@@ -108,11 +108,16 @@ func genMainFacts() {
 				if id.Name == "preload" {
 					prePos = ce.Pos()
 				}
+				if id.Name == "cleanSimpleIdentifires" {
+					cleanPos = ce.Pos()
+				}
 			}
 		}
 		return true
 	})
 	preloadBeforeTarget = prePos != token.NoPos && tgtPos != token.NoPos && prePos < tgtPos
+	// the per-round clean-up of the frame runs before the preloaded files, not between them and the target
+	cleanBeforePreload := cleanPos != token.NoPos && prePos != token.NoPos && cleanPos < prePos
 	// 4. call points: recorded only in the check round and not on the look-ahead copy; the copy is marked in beforeEval
 	cf := parseFile("eval/method_evaluator/core.go")
 	nm := findFunc(cf, "", "NewMethodEvaluator")
@@ -176,6 +181,7 @@ func genMainFacts() {
 	fmt.Fprintf(&b, "def mainPreloadIsLoad : Bool := %v\n", preTrue)
 	fmt.Fprintf(&b, "def mainTargetIsNotLoad : Bool := %v\n", targetFalse)
 	fmt.Fprintf(&b, "def mainPreloadBeforeTarget : Bool := %v\n", preloadBeforeTarget)
+	fmt.Fprintf(&b, "def mainCleanBeforePreload : Bool := %v\n", cleanBeforePreload)
 	b.WriteString("end RubyTi.Gen\n")
 	writeGen("MainFacts", b.String())
 }
